@@ -137,7 +137,8 @@ CHECKS += [
              "category, arrow dictionary), numeric (all int / uint / float widths, nullable and arrow-backed) and boolean data x 5 formulas "
              "x 3 materializer routes x 3-4 output types x rank flag x every distinct row order of 1-3-level columns (two alphabets) is "
              "built by the real model_matrix and compared cell by cell with an independent reference dummy coding (sorted levels for text, "
-             "declared order for categorical dtypes, values unchanged for numerics); every cell must be a number.",
+             "declared order for categorical dtypes, values unchanged for numerics); every cell must be a number."
+             " Later rounds added: every 64-bit integer dtype with values float64 cannot hold, float16, arrow-backed text / dictionary dtypes, level names starting with '__' (known finding K4), a no-intercept formula whose first column is integer / boolean typed, and a spec fitted on one representation applied to another.",
         design_ref="DESIGN.md section 3 C08; notes/c08.md",
         note="Trusted: models/dummy_ref.py (self-tested against documented outputs). The order of pyarrow dictionary columns and the numpy "
              "container dtype (object vs float) of results built from masked extension dtypes are classed unspecified and only counted; "
@@ -151,7 +152,8 @@ CHECKS += [
              "follow-ups (depth 2).  Each application is compared with a stateless reference evaluated with the training levels: "
              "FactorEncodingError iff a factor's kind changed, otherwise the spec's column names and order, coding rows of present levels, "
              "all-zero columns for absent levels, nothing added or renamed for unseen levels plus a DataMismatchWarning; the second "
-             "application must equal what the same frame gives on a freshly fitted spec (no carry-over).",
+             "application must equal what the same frame gives on a freshly fitted spec (no carry-over)."
+             " Later rounds added: pass-through Python factors (I(A), Q('A'), {A}), chains through the spec attached to a follow-up matrix, non-string level types, every leaf spec of structured formulas and derived (subset / differentiated) specs used on their own, and a materializer object that served an earlier call.",
         design_ref="DESIGN.md section 3 C09; notes/c09.md",
         note="Trusted: models/dummy_ref.py. Warnings are recorded locally with simplefilter('always').",
         bfs=True,
@@ -164,7 +166,8 @@ CHECKS += [
              "term lists, x 3 outputs x rank flag x two frames.  For each spec: column_names vs actual labels, term index ranges (contiguous, "
              "disjoint, ordered, covering, each holding only its own term's columns), every lookup by Term object / printed form / column "
              "name through term_indices, term_slices, get_slice, get_term_indices, column_indices, variable_indices against a hand-written "
-             "variable table, and regeneration of every non-empty term subset against the parent's columns.",
+             "variable table, and regeneration of every non-empty term subset against the parent's columns."
+             ' Later rounds added: quoted-name and Python-expression factors (keyword-only names, slices, dict literals) with a perturbation oracle for variable indices, lookups must not mutate the metadata, every leaf spec of structured formulas, duplicate column names, and specs pickled in one interpreter and loaded under another hash seed.',
         design_ref="DESIGN.md section 3 C10; notes/c10.md",
         note="Expectations (term order, printed forms, variables per factor) are written by hand in props/c10.py. Lookups by permuted "
              "forms other than the printed form are counted, not demanded. Not covered: > 3 terms, clustering, structured specs.",
@@ -177,7 +180,8 @@ CHECKS += [
              "an unused column, and minus each reported column - for Formula.required_variables and for the fitted spec.  Name resolution: "
              "every one of the 2^3 combinations of {data, context, built-in transforms} defining a value name and a callable name through 5 "
              "entry points; the produced column must come from the winning layer and variables_by_source must say so.  '.': every ordered "
-             "column list of <= 3 (4) names x every LHS subset x 4 LHS forms x 5 entry points.",
+             "column list of <= 3 (4) names x every LHS subset x 4 LHS forms x 5 entry points."
+             ' Later rounds added: 46 factor kinds (method receivers, subscripts, comprehensions, calls of call results, builtins, aliases colliding with real names, transform-named columns), a restricted-data oracle, and re-use of fitted specs when another layer provides the name (known findings K3, K7-K9).',
         design_ref="DESIGN.md section 3 C17; notes/c17.md",
         note="Verdicts are operational (succeeds / raises FactorEvaluationError / equals the winning layer's value). Four known findings "
              "(K3a-d, one root cause: method-call receivers and attribute access in Python factors) are listed in known_findings.json.",
@@ -194,7 +198,8 @@ CHECKS += [
              "from the R / textbook definitions (closed form and inverse of the hypothesis matrix), including exact rank of [1 | coding], "
              "zero column sums and K [1|C] = I.  Every data vector of length <= 4 over <= 4 levels plus null plus an out-of-list value is "
              "encoded through encode_contrasts and, up to length 3, through C(x, contr...) in model_matrix, with explicit and inferred "
-             "level lists, and re-encoded from the recorded state; results equal indicator x reference coding.",
+             "level lists, and re-encoded from the recorded state; results equal indicator x reference coding."
+             ' Later rounds added: histories of 2 (3) calls on ONE contrast instance with different level counts / flags, and one instance shared by two factors of a formula.',
         design_ref="DESIGN.md section 3 C11; notes/c11.md",
         note="Trusted: models/contrasts_ref.py (two independent exact derivations that must agree; pinned R output). The polynomial "
              "column-name prefix and ill-conditioned score vectors are classed unspecified / excluded (float64 limit).",
@@ -207,7 +212,8 @@ CHECKS += [
              "each followed by re-use of the recorded state on follow-up vectors.  Every output row, the recorded knot vector and the "
              "error behaviour are compared with an independent exact (Fraction) reference: Cox-de Boor on the recorded knots with "
              "polynomial continuation, and the cardinal natural / periodic interpolating cubic splines from the second-derivative system; "
-             "centring is checked through the constraint map (rank, zero training means, span).",
+             "centring is checked through the constraint map (rank, zero training means, span)."
+             ' Later rounds added: explicit bounds narrower than the training data in every extrapolation mode (knot selection sample, centering with zeroed rows), integer-typed data and spec re-use on wider data.',
         design_ref="DESIGN.md section 3 C12; notes/c12.md",
         note="Trusted: models/splines_ref.py (self-tested against its defining properties and scipy at start-up). A check of the "
              "construction on a grid, not a pointwise proof off the grid; the value exactly at the upper bound when a quantile knot "
@@ -221,7 +227,8 @@ CHECKS += [
              "(new - mean)/sd of the training data with the state unchanged.  poly of degree 1..3 with a null in every position is compared "
              "with the exact orthonormal polynomial basis (Q'Q = I, Q'1 = 0, span, NaN exactly in null rows) and new points are evaluated "
              "with the fitted polynomials.  log / log2 / log10 / exp / exp2 / exp10 are compared with the functions their names denote and "
-             "with their inverse partners, directly and inside formulas.",
+             "with their inverse partners, directly and inside formulas."
+             ' Later rounds added: integer dtypes of every width and numpy.bool_ flags, stateful calls nested inside ordinary calls / other stateful calls, multi-column input to scale, extreme magnitudes (known finding K6), and pristine-interpreter histories in which a transform name was bound to a plain function before.',
         design_ref="DESIGN.md section 3 C13; notes/c13.md",
         note="Trusted: models/c13_numeric_ref.py. Tolerances are derived from conditioning (1e-9 x kappa for scale; recurrence growth "
              "factor for poly); cases whose float64 conditioning is hopeless get shape / null checks only and are counted.",
@@ -233,7 +240,8 @@ CHECKS += [
              "with and without a head minus; every list of up to 2 constraints (and triples from a smaller pool) as comma string, list of "
              "strings and mapping; under 7 variable namings including reversed order, an unused name, back-quoted names and the column "
              "names of two materialized specs through ModelSpec.get_linear_constraints - compiled by the real LinearConstraints.from_spec "
-             "and compared coefficient by coefficient with an exact Fraction affine-form evaluator; non-affine specs must be rejected.",
+             "and compared coefficient by coefficient with an exact Fraction affine-form evaluator; non-affine specs must be rejected."
+             " Later rounds added: mapping values of every numeric type, unary signs after '=' and ',', columns named like numeric literals, and probes of constructs classed unspecified (sign after an arithmetic operator, exponent notation, chained '=').",
         design_ref="DESIGN.md section 3 C16; notes/c16.md",
         note="Trusted: models/affine.py (self-tested against the pinned constraint tests; every rendered string is re-derived from its "
              "tree). Because the compiled map is affine, coefficient equality settles all x. Adjacent operators such as 'x = -2' and "
@@ -247,7 +255,8 @@ CHECKS += [
              "(count, order, factor order) with an independent symbolic rule; the tuple call is compared with successive calls and with "
              "ModelSpec(s).differentiate.  For every list of up to 2 (3) terms the derivative is materialized (rank reduction on / off; "
              "Formula, spec and two-sided paths; three outputs) and each non-zero derivative term's column, located through term_indices, "
-             "must equal the exact finite difference (h = 1 and 1/2) of the original term's column.",
+             "must equal the exact finite difference (h = 1 and 1/2) of the original term's column."
+             " Later rounds added: literal-scaled terms (symbolic and materialized, also re-materialized from the derivative's own spec), fitted specs with stateful factors differentiated and applied to other data, mutation histories on one formula object between differentiations, and variable names containing ':' or spaces.",
         design_ref="DESIGN.md section 3 C20; notes/c20.md",
         note="Only the default use_sympy=False path (sympy is not installed in /venv). A wrt variable inside a function factor (log(a) "
              "w.r.t. a) is unspecified without sympy and skipped. Trusted: models/calculus_ref.py.",
@@ -263,7 +272,8 @@ CHECKS += [
              "operator, 43 exponent forms, string literals, '.' with and without context, all multistage shapes), x intercept mode x "
              "feature-flag subsets, is parsed by the real parser under a 5 s watchdog.  The outcome must be a value, a FormulaParsingError, "
              "or a SyntaxError justified by an invalid embedded Python fragment as delimited by an independent reference lexer; a string "
-             "that needs a disabled operator must be rejected.",
+             "that needs a disabled operator must be rejected."
+             ' Later rounds added: histories over copies of a parser (copy, deepcopy, pickle, dataclasses.replace, set_feature_flags on any object obtained so far) and a depth ladder up to 3000 repetitions of every nesting construct.',
         design_ref="DESIGN.md section 3 C14; notes/c14.md",
         note="Trusted: models/lexer.py and models/wilkinson.py for 'needs a disabled operator'. One known finding (K1: NotImplementedError "
              "for a nested multistage left-hand side, pinned by the existing suite).",
@@ -276,7 +286,8 @@ CHECKS += [
              "operator, bracket, quote and non-ASCII characters, back-quoted in seven forms, must yield that name verbatim and materialize "
              "to that column. (c) 55 Python expressions x every subset of their own token boundaries re-spaced, both quote styles and "
              "redundant parentheses, in brace and call form, must give one ast-equivalent, string-identical factor. (d) For every string of "
-             "<= 4 over 24 and <= 5 (6) over 14 characters, token spans must be ordered, disjoint and delimit their text.",
+             "<= 4 over 24 and <= 5 (6) over 14 characters, token spans must be ordered, disjoint and delimit their text."
+             ' Later rounds added: backslashes, dots and the empty name as back-quoted names (known finding K5), string literals with escapes and triple quotes, stateful calls with quote-bearing string arguments evaluated end to end, names glued to keywords, and 45 evaluated fragments whose callee / attribute base is not a plain name.',
         design_ref="DESIGN.md section 3 C15; notes/c15.md",
         note="Trusted: models/lexer.py (reference lexer written from grammar.md and Python's lexical rules). Names containing a "
              "back-slash are classed unspecified (escape handling is not documented).",
@@ -290,7 +301,8 @@ CHECKS += [
              "layers over three keys with every history of <= 3 (4) mutating events (set, del, named_layers, with_layers prepend / append x "
              "inplace x naming), comparing lookups with source-layer names, length and the supplied layers after every event and every "
              "read operation after every history.  SimpleFormula: every history of <= 3 (4) sequence mutations over five terms for the "
-             "three ordering modes, compared with a re-sorted list after every event.",
+             "three ordering modes, compared with a re-sorted list after every event."
+             " Later rounds added: every history also run 'blind' (no read between events, compared at the end only), aliasing between a mapping and mappings derived from it, slice assignment, and callbacks that raise inside _map.",
         design_ref="DESIGN.md section 3 C19; notes/c19.md",
         note="Trusted: models/containers_ref.py. Undocumented behaviours (slice assignment, intersection order, reverse() in degree "
              "mode, _merge of tuple with non-tuple, with_layers resetting the name) are counted, not flagged.",
